@@ -167,6 +167,8 @@ def run(ctx):
     parse_errors_are_errors(ctx, "R13-f")
     modules_come_from_the_parser(ctx, "R13-g")
     registered_modules_come_from_their_file(ctx, "R13-h")
+    ownership_table(ctx, "R13-i")
+    resolution_errors_not_overwritten(ctx, "R13-j")
 
     D = r.rule("R13-d", "ParseSess::default_submod_path retries in the declaring file's own directory only for "
                         "ModError::FileNotFound with a relative owner, every other error is passed on unchanged; the module map "
@@ -413,3 +415,103 @@ def registered_modules_come_from_their_file(ctx, rid):
                                 "when nothing else was registered for that path (the file is `#![rustfmt::skip]`, or could not be "
                                 "parsed) the parent's text is written to it", [c.loc()])
     r.floor(rid, n_new, 3, "Module::new sites in the external-module finders")
+
+
+def ownership_table(ctx, rid):
+    """R13-i: which directory the children of an out-of-line module are looked up in"""
+    p, r = ctx.p, ctx.r
+    r.rule(rid, "ModResolver::find_external_module, SubModKind::External(path, ownership, _): a module named by #[path] owns its "
+                "file's directory outright — ownership = Owned { relative: None } — and a module found at its default location "
+                "takes the dir_ownership computed by default_submod_path together with its file_path (the same call): the language's "
+                "rules for where `mod b;` inside that file is looked up")
+    f = p.named("find_external_module", within="modules::ModResolver")
+    if f is None:
+        r.undecidable(rid, "find_external_module not found")
+        return
+    PURE = ("parse_file_as_module", "is_file_parsed", "submod_path_from_attr", "default_submod_path", "contains_skip", "::is_empty",
+            "find_mods_outside_of_ast")
+    try:
+        paths = explore(f, pure=lambda c: any(x in c.name for x in PURE), max_paths=200000, program=p, inline="auto")
+    except TooManyPaths as e:
+        r.undecidable(rid, str(e))
+        return
+    r.paths(rid, len(paths))
+    n_attr = n_def = 0
+    for path in paths:
+        v = path.ret
+        if path.end != "ret" or v is None:
+            continue
+        # Ok(Some(External(a, b, c)))
+        try:
+            inner = v
+            for want in ("Ok", "Some"):
+                if not (inner[0] == "agg" and inner[2] == want and inner[3]):
+                    raise ValueError
+                inner = inner[3][0]
+            if not (inner[0] == "agg" and inner[2] == "External" and len(inner[3]) >= 2):
+                continue
+        except (ValueError, IndexError):
+            continue
+        a, b = vkey(inner[3][0]), vkey(inner[3][1])
+        by_attr = any("submod_path_from_attr(" in k and variant_name(val) == "Some" for k, val in path.decisions)
+        if by_attr:
+            n_attr += 1
+            ok = b == "Owned(None)"
+            r.instance(rid, "External[#[path]] ownership = %s" % short(b)[:40], "ok" if ok else "violation", "%s:%d" % (f.file, f.line))
+            if not ok:
+                r.violation(rid, "find_external_module: a #[path] module does not own its directory outright",
+                            "the module named by #[path] is given ownership %s instead of Owned { relative: None }: a `mod b;` inside "
+                            "that file is looked up in a sub-directory named after the *declaring* file, so a stray file there is "
+                            "formatted instead of the module's real file" % short(b)[:80], ["%s:%d" % (f.file, f.line)])
+        else:
+            n_def += 1
+            ok = "default_submod_path(" in a and a.endswith(".file_path") and b == a[:-len(".file_path")] + ".dir_ownership"
+            r.instance(rid, "External[default location] ownership from the same resolution", "ok" if ok else "violation",
+                       "%s:%d" % (f.file, f.line))
+            if not ok:
+                r.violation(rid, "find_external_module: default-location module with foreign ownership",
+                            "file path %s is paired with ownership %s, not with the dir_ownership default_submod_path computed for it"
+                            % (short(a)[-60:], short(b)[-60:]), ["%s:%d" % (f.file, f.line)])
+    r.floor(rid, n_attr, 1, "External results of the #[path] branch")
+    r.floor(rid, n_def, 1, "External results of the default branch")
+
+
+def resolution_errors_not_overwritten(ctx, rid):
+    """R05-j / R13-j: a module-resolution error is never replaced by a later success"""
+    from common import natural_loops, discr_branches
+    p, r = ctx.p, ctx.r
+    r.rule(rid, "modules::ModResolver: the Result<_, ModuleResolutionError> of every resolver call made inside a loop is consumed at "
+                "once — `?`, a match on it, or returned — and is not parked in a variable that a later iteration assigns again: "
+                "`result = self.visit_sub_mod(..)` in a loop reports only the last module's outcome, an earlier unresolvable or "
+                "unparsable module is forgotten and the run goes on to write files")
+    n = 0
+    for f in p.by_crate["rustfmt_nightly"]:
+        if "modules::ModResolver" not in f.id:
+            continue
+        loops = natural_loops(f)
+        if not loops:
+            continue
+        in_loop = set()
+        for h, body in loops:
+            in_loop |= body
+        for c in f.calls():
+            g = p.fns.get(c.resolved or "")
+            if g is None or "ModuleResolutionError" not in g.locals[0] or "Result" not in g.locals[0]:
+                continue
+            if c.bb not in in_loop or c.dest[1]:
+                continue
+            n += 1
+            from common import _moves_of
+            locs = [c.dest[0]] + list(_moves_of(f, c.dest[0]))
+            consumed = any(x.declared == "std::ops::Try::branch" and x.args and x.args[0][0] != "k" and x.args[0][1][0] in locs
+                           and x.bb in in_loop for x in f.calls())
+            consumed = consumed or any(sw in in_loop for l in locs for (sw, m, other) in discr_branches(f, l))
+            defs = max((f.defs().get(l, []) for l in locs), key=len)
+            parked = len(defs) > 1 and not consumed
+            key = "%s: result of %s" % (short(f.id), short(c.name).rsplit("::", 1)[-1])
+            r.instance(rid, key, "violation" if parked else "ok", c.loc(), "consumed at once" if consumed else "%d assignments" % len(defs))
+            if parked:
+                r.violation(rid, "%s overwrites the outcome of %s from one iteration to the next" % (short(f.id), short(c.name).rsplit("::", 1)[-1]),
+                            "the Result is assigned to a variable that is also assigned elsewhere and is neither `?`-ed nor matched: "
+                            "only the last module visited in the loop decides whether the crate root fails", [c.loc()])
+    r.floor(rid, n, 2, "resolver calls inside loops of ModResolver")
